@@ -217,6 +217,10 @@ def admissible (loaded : Option Base) (files : List Res) (mask : List Bool) : Bo
   mask.length = files.length &&
   (mask.all id || (files.zip mask).any (fun p => p.2 && triggers loaded p.1))
 
+/-- `fail_fast` of `run_check_with_context`: the flag or the configuration, and never in a run
+    that rewrites the baseline -/
+def effectiveFailFast (flagOrConfig : Bool) (f : Flags) : Bool := flagOrConfig && f.update.isNone
+
 def processed (files : List Res) (mask : List Bool) : List Res :=
   (files.zip mask).filterMap (fun p => if p.2 then some p.1 else none)
 
